@@ -24,7 +24,7 @@ CLAIM = {
             "<- Node::forget_channel; forget_channel removes only stubs; (R15.3) new_channel refuses "
             "dbid_high_water_mark >= dbid before creating anything, forget_channel raises the mark to the channel's "
             "oid (only upwards) and persists it before returning, and the mark survives restart (C11 R11.2 slots). "
-            "(R15.4) the monitor recognises the node own outputs of a unilateral close by scripts built from the right keys: in decode_commitment_tx the to-us (non-delayed) script comes from the holder payment point, the holder delayed script from keys derived with holder delayed/htlc and counterparty revocation/htlc basepoints and the counterparty-selected delay, and the counterparty delayed script from the mirror image (else an unswept output is not seen and the channel counts as done). Does not decide the numeric depth arithmetic at extremes.",
+            "(R15.4) the monitor recognises the node own outputs of a unilateral close by scripts built from the right keys: in decode_commitment_tx the to-us (non-delayed) script comes from the holder payment point, the holder delayed script from keys derived with holder delayed/htlc and counterparty revocation/htlc basepoints and the counterparty-selected delay, and the counterparty delayed script from the mirror image (else an unswept output is not seen and the channel counts as done). (R15.5/R15.6) restart clause (`survives any number of ... restarts`, `also after a restart`): the channel-id high-water mark is persisted before forget_channel acknowledges, and every persisted field of node state, channel entry, tracker and monitor is restored into the same slot (same obligations as C11 R11.1 for the node class and C11 R11.2). Does not decide the numeric depth arithmetic at extremes.",
     "note": "MIN_DEPTH constant evaluated by rustc; restart survival of channels relies on C11",
     "technique": "static analysis: who-may-call/write + must-pass-through + guard scenarios",
 }
@@ -37,6 +37,7 @@ def run(ctx):
     r152(ctx)
     r153(ctx)
     r154(ctx)
+    r_restart(ctx)
 
 
 def r151(ctx):
@@ -419,3 +420,14 @@ def r154(ctx):
                    f"delayed output script of the {side} commitment uses delay `{a[1][-60:]}`",
                    where=f"{b.file}:{c.line}", sample=dl)
     ctx.floor("R15.4", "script constructions in decode_commitment_tx", n, 5)
+
+
+def r_restart(ctx):
+    """restart clauses of C15: the mark raised by forget_channel is durable when the request is acknowledged, and what was
+    stored (node state incl. the mark, channel entries, tracker with the monitors' State incl. saw_forget_channel and the
+    closing heights) comes back in the same slots.  Same obligations as C11 R11.1 (node class) and C11 R11.2."""
+    from rules import C11 as _c11
+    from engine import report as _report
+    v = _report.renamed(ctx, {"R11.1": "R15.5", "R11.2": "R15.6"})
+    _c11.r111(v, classes={"node"})
+    _c11.r112(v)
